@@ -160,7 +160,7 @@ def filters(ctx: Ctx, rule="R-C11-FILTER") -> None:
               f"redis __fetch_message_name returns names under the test {[t.label for t in tests]}", instance="redis filter test")
     # ---------- rabbitmq
     f = ctx.func(f"{C.RABBIT_CONS}.on_new_message")
-    g = ctx.cfg(f)
+    g = flow.inline(f, ctx.res, 2, lambda n, cal: cal.cls is not None and cal.cls.qualname == C.RABBIT_CONS and cal in C.helper_callees(ctx, f))
 
     def paused(text, node):
         if isinstance(node, ast.Attribute) and node.attr in ("__is_paused",):
@@ -173,7 +173,20 @@ def filters(ctx: Ctx, rule="R-C11-FILTER") -> None:
     calls = [g.nodes[i] for i in r if g.nodes[i].kind == "call"]
     rej = [c for c in calls if (c.callee or "").endswith("basic_reject")]
     bad = [c for c in calls if (c.callee or "").endswith(("basic_nack", "basic_ack", "queue.put"))]
-    ok = len(rej) == 1 and not bad and not any(k.arg == "requeue" and C.is_const(k.value, False) for k in rej[0].ast.keywords) and unparse(rej[0].ast.args[0]) == "message.delivery_tag"
+    def tag_arg(c):
+        a = c.ast.args[0] if c.ast.args else None
+        if unparse(a) == "message.delivery_tag":
+            return True
+        # inside an extracted helper: the helper's parameter, bound to message.delivery_tag at the call site
+        if isinstance(a, ast.Name) and c.func is not f:
+            for cc in ast.walk(f.node):
+                if isinstance(cc, ast.Call) and any(cal is c.func for cal in ctx.res.callees(f, cc)):
+                    if unparse(C.bind_call(c.func, cc).get(a.id)) != "message.delivery_tag":
+                        return False
+            return True
+        return False
+
+    ok = len(rej) == 1 and not bad and not any(k.arg == "requeue" and C.is_const(k.value, False) for k in rej[0].ast.keywords) and tag_arg(rej[0])
     ctx.check(ok, rule, f, "rabbitmq: foreign topic -> basic_reject(requeue), nothing else", "message stays available to other workers",
               f"rabbitmq on_new_message on a foreign topic: reject={[unparse(c.ast)[:60] for c in rej]}, other effects={[unparse(c.ast)[:40] for c in bad]}", instance="rabbitmq foreign topic")
     r = flow.reach_under(g, _topic_env(False, extra=paused), flow.NORMAL_KINDS)
@@ -208,14 +221,17 @@ def sync(ctx: Ctx, rule="R-C11-SYNC") -> None:
                       f"{m.short()} registers an actor without adding its name to its queue's topics", node=wn, instance=f"{m.name}: topic added")
     ctx.floor(rule, writers, 2, "writers of Router.actors")
     a = ctx.func(f"{ROUTER}.actor")
+    ads = [t.id for n in ast.walk(a.node) if isinstance(n, ast.Assign) and isinstance(n.value, ast.Call) and dotted(n.value.func) == "ActorData" for t in n.targets if isinstance(t, ast.Name)]
+    ctx.require(len(ads) == 1, f"{a.qualname}: ActorData(...) construction not found")
+    av = ads[0]
     fg = [c for c in ast.walk(a.node) if isinstance(c, ast.Call) and dotted(c.func) == "self._forget_topic"]
-    ok = len(fg) == 1 and [unparse(x) for x in fg[0].args] == ["a.name", "a.queue"]
+    ok = len(fg) == 1 and [unparse(x) for x in fg[0].args] == [f"{av}.name", f"{av}.queue"]
     ctx.check(ok, rule, a, "_forget_topic(a.name, a.queue)", "name and new queue of the actor being registered", f"Router.actor evicts with {unparse(fg[0]) if fg else '?'}", instance="actor: eviction arguments")
     st = [n for n in ast.walk(a.node) if isinstance(n, ast.Assign) and isinstance(n.targets[0], ast.Subscript) and dotted(n.targets[0].value) == "self.actors"]
-    ok = len(st) == 1 and unparse(st[0].targets[0].slice) == "a.name" and unparse(st[0].value) == "a"
+    ok = len(st) == 1 and unparse(st[0].targets[0].slice) == f"{av}.name" and unparse(st[0].value) == av
     ctx.check(ok, rule, a, "self.actors[a.name] = a", "last registration wins", f"Router.actor stores {unparse(st[0]) if st else '?'}", instance="actor: store")
-    ad = [c for c in ast.walk(a.node) if isinstance(c, ast.Call) and unparse(c.func) == "self.topics_by_queue[a.queue].add"]
-    ctx.check(len(ad) == 1 and unparse(ad[0].args[0]) == "a.name", rule, a, "topics_by_queue[a.queue].add(a.name)", "name under its own queue", "Router.actor does not add the name under the actor's queue",
+    ad = [c for c in ast.walk(a.node) if isinstance(c, ast.Call) and unparse(c.func) == f"self.topics_by_queue[{av}.queue].add"]
+    ctx.check(len(ad) == 1 and unparse(ad[0].args[0]) == f"{av}.name", rule, a, "topics_by_queue[a.queue].add(a.name)", "name under its own queue", "Router.actor does not add the name under the actor's queue",
               instance="actor: topic add")
     ir = ctx.func(f"{ROUTER}.include_router")
     loops = [n for n in ast.walk(ir.node) if isinstance(n, ast.For) and any(isinstance(c, ast.Call) and dotted(c.func) == "self._forget_topic" for c in ast.walk(n))]
@@ -234,12 +250,14 @@ def sync(ctx: Ctx, rule="R-C11-SYNC") -> None:
               "include_router does not take over the included router's actors", instance="include_router: actors")
     ft = ctx.func(f"{ROUTER}._forget_topic")
     g = ctx.cfg(ft)
-    disc = [c for c in g.calls() if isinstance(c.ast.func, ast.Attribute) and c.ast.func.attr in ("discard", "remove") and "topics_by_queue" in unparse(c.ast.func)]
+    disc = [c for c in g.calls() if isinstance(c.ast.func, ast.Attribute) and c.ast.func.attr in ("discard", "remove") and "topics_by_queue" in C.utext(ft, c.ast.func)]
     dels = [n for n in g.nodes if n.kind == "store" and (n.target or "").startswith("del ") and "topics_by_queue" in (n.target or "")]
-    ok = len(disc) == 1 and "previous.queue" in unparse(disc[0].ast.func) and unparse(disc[0].ast.args[0]) == "name"
+    namep = [p_.arg for p_ in ft.params()][1]
+    dtxt = C.utext(ft, disc[0].ast.func) if disc else ""
+    ok = len(disc) == 1 and ("topics_by_queue[previous.queue]" in dtxt or f"topics_by_queue[self.actors.get({namep}).queue]" in dtxt) and unparse(disc[0].ast.args[0]) == namep
     ctx.check(ok, rule, ft, "_forget_topic discards the name from the previous queue's set", "topics_by_queue[previous.queue].discard(name)", "_forget_topic does not remove the name from the previous queue", instance="forget: discard")
     ok = bool(dels) and bool(disc) and all(d.id in flow.reach(g, [disc[0].id], flow.NORMAL_KINDS) for d in dels)
-    guards = [t for t in g.nodes if t.kind == "test" and "topics_by_queue" in t.label]
+    guards = [t for t in g.nodes if t.kind == "test" and "topics_by_queue" in C.utext(ft, t.ast)]
     ok = ok and any(isinstance(t.ast, ast.UnaryOp) and isinstance(t.ast.op, ast.Not) for t in guards)
     ctx.check(ok, rule, ft, "a queue left without topics is removed", "del topics_by_queue[q] when its set became empty",
               "_forget_topic leaves a queue with an empty topic set behind: the worker still opens a consumer for it and an empty topic set means 'no filter', so it takes every "
@@ -259,7 +277,7 @@ def sync(ctx: Ctx, rule="R-C11-SYNC") -> None:
     r = flow.reach_under(g, env(False, True), flow.NORMAL_KINDS)
     ctx.check(not any(d.id in r for d in disc), rule, ft, "same queue -> kept", "no eviction", "_forget_topic evicts a name re-registered under the same queue", instance="forget: same queue")
     pv = C.local_defs(ft, "previous")
-    ctx.check(len(pv) == 1 and unparse(pv[0]) == "self.actors.get(name)", rule, ft, "previous registration looked up by name", "self.actors.get(name)", f"_forget_topic looks up {unparse(pv[0]) if pv else '?'}", instance="forget: lookup")
+    ctx.check(len(pv) == 1 and unparse(pv[0]) in (f"self.actors.get({namep})", f"self.actors.get({namep}, None)"), rule, ft, "previous registration looked up by name", "self.actors.get(name)", f"_forget_topic looks up {unparse(pv[0]) if pv else '?'}", instance="forget: lookup")
 
 
 def aiormq_contract(ctx: Ctx, rule="R-C11-FILTER") -> None:
